@@ -128,6 +128,33 @@ class TimerTable:
                 ctx.fail(cons, peer_cls.loc(), f"Peer.{t} defaults to {val!r} instead of None: the "
                          f"`peer.{t} or node.{t}` fall-back always takes the per-peer value and the "
                          f"node-level {t} is ignored for every configured peer", rule=rule)
+        # ... and stays None until the user sets it: nothing in the package fills the per-peer
+        # field from the node-level setting (the node-level value is read when a timer is checked,
+        # so that changing it applies to every peer that has no setting of its own)
+        for t in names:
+            cons = f"Peer.{t}:not-prefilled"
+            ctx.inst(cons, rule=rule)
+            for f in self.model.all_funcs():
+                if ".node" not in f.module.name:
+                    continue
+                for n in ast.walk(f.node):
+                    vals = []
+                    if isinstance(n, ast.Call) and A.call_name(n).split(".")[-1] == "Peer":
+                        vals = [k.value for k in n.keywords if k.arg == t]
+                    elif isinstance(n, ast.Assign) and any(
+                            isinstance(x, ast.Attribute) and x.attr == t and A.dotted(x.value) not in ("self",)
+                            for x in n.targets):
+                        vals = [n.value]
+                    for v in vals:
+                        src = [x for x in ast.walk(v) if isinstance(x, ast.Attribute) and x.attr == t
+                               and f.cls is not None and f.cls.name == "Node" and A.dotted(x.value) == "self"]
+                        if src:
+                            ctx.fail(cons, f.loc(n), f"{f.qualname} fills the per-peer {t} from the node "
+                                     f"default (`{ast.unparse(v)[:60]}`): `peer.{t} or node.{t}` never "
+                                     f"falls back to the node-level value again - a {t} set on the node "
+                                     f"after the peer was added is ignored for that peer", rule=rule,
+                                     expected="None unless the caller passed a value",
+                                     observed=ast.unparse(v)[:60])
         cons = "_check_timers:peer-lookup"
         ctx.inst(cons, rule=rule)
         if self.peer_var is None or not A.call_name(self.peer_def).endswith("_find_connection_peer") \
